@@ -145,7 +145,7 @@ def run(prop, tier, seed, replay=None):
         if g.result is None:
             ck.inconc('harness produced no result (rc=%d): %s' % (g.rc, g.out[-1500:]))
             return ck.finish()
-        r = g.result
+        r = {k: ([] if v is None else v) for k, v in g.result.items()}
         handle_result(ck, r, prop, 'cover')
         ck.add('traces_validated_against_impl', r['conforming'])
         ck.cov['replayed_behaviours'] = r['replayed']
@@ -178,7 +178,7 @@ def run(prop, tier, seed, replay=None):
                 ck.cov['real_trace_events'] = r['trace_events']
             elif tv.violation:
                 m = re.search(r'TRACE-REJECTED-AT-LINE", (\d+)', tv.out)
-                if tv.violation.startswith('Trace') and not m:
+                if tv.violation.startswith('Trace') and tv.violation != 'postcondition' and not m:
                     # a property invariant failed on a state of a real execution
                     pid = 'C01' if tv.violation in ('TraceNoDoubleOwner', 'TraceNoForeignWrite') else 'C02'
                     if pid == prop:
